@@ -66,7 +66,9 @@ Contexts == {<<E1(N_div, NS_html)>>, <<E1(N_title, NS_html)>>, <<E1(N_textarea, 
              <<E1(N_svg, NS_svg)>>, <<E1(N_svg, NS_svg), E1(N_style, NS_svg)>>, <<E1(N_svg, NS_svg), E1(N_title, NS_svg)>>,
              <<E1(N_svg, NS_svg), E1(N_script, NS_svg)>>, <<E1(N_svg, NS_svg), E1(N_title, NS_svg), E1(N_style, NS_html)>>,
              <<E1(N_math, NS_mathml)>>, <<E1(N_math, NS_mathml), E1(N_annotation_xml, NS_mathml)>>,
-             <<E1(N_math, NS_mathml), E1(N_textarea, NS_mathml)>>}
+             <<E1(N_math, NS_mathml), E1(N_textarea, NS_mathml)>>,
+             \* raw-text element nested in a raw-text element (noscript parsed without scripting; foreign content)
+             <<E1(N_noscript, NS_html), E1(N_style, NS_html)>>, <<E1(N_svg, NS_svg), E1(N_style, NS_svg), E1(N_script, NS_svg)>>}
 CtxToks(c) == [i \in 1..Len(c) |-> St(c[i].n, c[i].ns, <<>>)]
 \* html5lib's parser can put (reconstructed formatting) elements inside textarea, never inside raw-text elements
 TextOnly(e) == IsHtmlNs(e.ns) /\ e.n \in {N_style, N_script, N_xmp, N_iframe, N_plaintext}
